@@ -1,7 +1,7 @@
 /* C20 harness: every C++ wrapper method against the C function it documents
  * itself as wrapping, on twin copies of a dirfile.
  *
- *   cxxdiff <dirA> <dirB> <seed> <rounds> [open-flags-hex]
+ *   cxxdiff <dirA> <dirB> <seed> <rounds> [open-flags-hex] [cb]     (cb: open with a parser callback that ignores syntax errors)
  *
  * dirA is driven through the C++ classes, dirB through the C API, with the
  * same (pseudo-random, seeded) arguments.  Each comparison prints nothing when
@@ -136,6 +136,8 @@ static const gd_entype_t ET[] = { GD_RAW_ENTRY, GD_LINCOM_ENTRY, GD_LINTERP_ENTR
   GD_POLYNOM_ENTRY, GD_SBIT_ENTRY, GD_DIVIDE_ENTRY, GD_RECIP_ENTRY, GD_WINDOW_ENTRY, GD_MPLEX_ENTRY, GD_INDIR_ENTRY, GD_SINDIR_ENTRY,
   GD_CONST_ENTRY, GD_STRING_ENTRY, GD_CARRAY_ENTRY, GD_SARRAY_ENTRY };
 
+static int count_cb(gd_parser_data_t *p, void *extra) { (void)p; (*(int*)extra)++; return GD_SYNTAX_IGNORE; }
+
 int main(int argc, char **argv)
 {
   if (argc < 5) return 2;
@@ -144,9 +146,11 @@ int main(int argc, char **argv)
   int rounds = atoi(argv[4]);
   unsigned long oflags = argc > 5 ? strtoul(argv[5], NULL, 16) : GD_RDWR;
 
-  Dirfile *X = new Dirfile(dirA, oflags);
-  DIRFILE *C = gd_open(dirB, oflags);
-  BOTH("open", S("opened"), S("opened"));
+  int use_cb = argc > 6 && !strcmp(argv[6], "cb");
+  int nx_cb = 0, nc_cb = 0;
+  Dirfile *X = use_cb ? new Dirfile(dirA, oflags, count_cb, &nx_cb) : new Dirfile(dirA, oflags);
+  DIRFILE *C = use_cb ? gd_cbopen(dirB, oflags, count_cb, &nc_cb) : gd_open(dirB, oflags);
+  BOTH("open", S("opened cb=") + num(nx_cb), S("opened cb=") + num(nc_cb));
   BOTH("ErrorCount", num(X->ErrorCount()), num(gd_error_count(C)));
 
   std::vector<S> all = names(gd_entry_list(C, NULL, 0, GD_ENTRIES_HIDDEN));
@@ -238,7 +242,8 @@ int main(int argc, char **argv)
     for (int i = 0; qc && qc[i]; i++) tc += list(qc[i]);
     BOTH("Sarrays", tx, tc);
   }
-  BOTH("Name", S(strrchr(X->Name(), '/') ? "ok" : "?"), S(strrchr(gd_dirfilename(C), '/') ? "ok" : "?"));
+  { const char *a = X->Name(), *b = gd_dirfilename(C);
+    BOTH("Name", S(!a ? "(null)" : strrchr(a, '/') ? "ok" : "?"), S(!b ? "(null)" : strrchr(b, '/') ? "ok" : "?")); }
   { const char *a = X->ReferenceFilename(); char *b0 = NULL; const char *r = gd_reference(C, NULL);
     if (r) b0 = gd_raw_filename(C, r);
     const char *ba = a ? strrchr(a, '/') : NULL, *bb = b0 ? strrchr(b0, '/') : NULL;
@@ -284,9 +289,11 @@ int main(int argc, char **argv)
       BOTH(S("Seek ") + f, num(X->Seek(f, ff, fs, wh)), num(gd_seek64(C, f, ff, fs, wh))); }
     { double v = (double)rnd(300) - 20 + rnd(4) * 0.25; gd_off64_t a = rnd(4), b = rnd(3) ? 0 : rnd(9);
       /* spf>=2 default-limit look-ups may never return on the unrepaired library (C19): keep to explicit, known ends */
-      if (b && (gd_off64_t)gd_nframes64(C) >= b + 1 && gd_spf(C, f) == 1)
+      gd_off64_t nfr = gd_nframes64(C); unsigned sp = gd_spf(C, f);
+      (void)X->NFrames(); (void)X->SamplesPerFrame(f);   /* keep the two handles' histories identical */
+      if (b && nfr >= b + 1 && sp == 1)
         BOTH(S("FrameNum ") + f, dbl(X->FrameNum(f, v, a, b)), dbl(gd_framenum_subset64(C, f, v, a, b)));
-      else gd_error(C); }
+    }
     if (rnd(3) == 0) {
       size_t px = X->PutData(f, ff, fs, nf, ns, (DataType)ty, src), pc2 = gd_putdata64(C, f, ff, fs, nf, ns, ty, src);
       BOTH(S("PutData ") + f, num(px), num(pc2));
